@@ -654,6 +654,32 @@ def scripts_tls_cuts(rnd, quick):
     return out
 
 
+def scripts_after_head(rnd, quick):
+    """A HEAD request answered on a kept-alive connection (its response has no body), then
+    every mutant / every good request on the same connection; and runs of good requests of
+    all kinds (each must be dispatched as what it is)."""
+    out = []
+    for i, (cls, sub) in enumerate(G.all_subs()):
+        h = G.realise('GoodHead', rnd, sub=i)
+        out.append(('afterhead:mutant', [('conn', 1), ('in', 1, h), ('in', 1, G.realise(cls, rnd, sub=sub)), ('disc', 1)]))
+    goods = [('GoodKA', i) for i in range(len(G.KEEP_BASES))] + [('GoodClose', i) for i in range(len(G.CLOSE_BASES))] + \
+        [('GoodHead', i) for i in range(len(G.HEAD_BASES))]
+    for hi in range(len(G.HEAD_BASES)):
+        for cls, i in goods:
+            out.append(('afterhead:good', [('conn', 1), ('in', 1, G.realise('GoodHead', rnd, sub=hi)),
+                                           ('in', 1, G.realise(cls, rnd, sub=i)), ('in', 1, G.realise('GoodKA', rnd)), ('disc', 1)]))
+            t = G.realise('Truncate', rnd)
+            out.append(('afterhead:trunc', [('connl', 1), ('in', 1, G.realise(cls, rnd, sub=i)), ('in', 1, G.realise('GoodHead', rnd, sub=hi)),
+                                            ('in', 1, t), ('in', 1, G.rest_of(t)), ('tdisc', 1), ('disc', 1)]))
+    for _ in range(20 if quick else 200):
+        sc = [('conn', 1)]
+        for _ in range(rnd.randint(3, 6)):
+            cls, i = rnd.choice(goods)
+            sc.append(('in', 1, G.realise(cls, rnd, sub=i)))
+        out.append(('afterhead:run', sc + [('disc', 1)]))
+    return out
+
+
 def scripts_random(rnd, n, fuzz):
     """Seeded random scripts over <= 3 connections; after an unanswered message
     anything may follow (continuation bytes of an arbitrary class)."""
@@ -678,7 +704,7 @@ def scripts_random(rnd, n, fuzz):
             elif r < 0.3 and c in trunc:
                 m = G.rest_of(trunc.pop(c))
             else:
-                cls = rnd.choice(['GoodKA', 'GoodKA', 'GoodClose', 'Truncate', 'Truncate', 'TlsCut'] + G.BAD_CLASSES)
+                cls = rnd.choice(['GoodKA', 'GoodKA', 'GoodClose', 'GoodHead', 'Truncate', 'Truncate', 'TlsCut'] + G.BAD_CLASSES)
                 m = G.realise(cls, rnd)
                 if cls == 'Truncate':
                     trunc[c] = m
@@ -767,6 +793,11 @@ def witness_of(lines, badline, notes):
     if bl['k'] == 'close':
         w['why'] = 'closed_after_keepalive_response' if resp else 'closed_without_answer'
     w['respver'] = resp[0]['a'] if resp else 0
+    if bl['k'] == 'req':
+        w['want'] = (first or {}).get('pr', '')
+        w['got'] = bl['pr']
+    heads = [ln for ln in before if ln['k'] == 'in' and ln['cls'] == 'GoodHead']
+    w['after_head'] = bool(heads)
     dec = sorted({n.split(':', 1)[1] for n in notes if n.startswith('decoder:')} - {'version'})
     if bl['k'] == 'resp' and dec:
         w['decoder'] = dec[0]
@@ -777,7 +808,7 @@ def witness_of(lines, badline, notes):
 # corrupted traces (binding demonstration)
 
 HOWS = ['residue', 'two', 'garbage', 'incomplete', 'noclose', 'keptbutclosed', 'dead', 'dispatch', 'status', 'goodclosed',
-        'partial']
+        'partial', 'wrongreq', 'gooderror', 'unsup200']
 
 
 def mutate_trace(rnd, lines, how):
@@ -785,6 +816,40 @@ def mutate_trace(rnd, lines, how):
     out = [dict(ln) for ln in lines]
     idx = {k: [i for i, ln in enumerate(out) if ln['k'] == k] for k in ('resp', 'tab', 'alive', 'rej', 'close', 'req', 'in')}
     peer_gone = set()
+    if how == 'wrongreq':
+        # the request dispatched is that of another message
+        cands = [i for i, ln in enumerate(out) if ln['k'] == 'req' and ln['pr'] and _want_before(out, i, ln['c']) == ln['pr']
+                 and not any(x['k'] == 'disc' and x['a'] == 1 and x['c'] == ln['c'] for x in out[:i])]
+        if not cands:
+            return None
+        i = rnd.choice(cands)
+        out[i]['pr'] = 'HEAD /head11' if out[i]['pr'] != 'HEAD /head11' else 'GET /get11?a=1&b=two'
+        return out, 'C14.wrong_request', 'request of another message dispatched at line %d' % (i + 1)
+    if how in ('gooderror', 'unsup200'):
+        cands = []
+        for i, ln in enumerate(out):
+            if ln['k'] != 'resp' or any(x['k'] == 'disc' and x['a'] == 1 and x['c'] == ln['c'] for x in out[:i]):
+                continue
+            j = _last_in(out, i, ln['c'])
+            if any(out[k]['k'] == 'resp' and out[k]['c'] == ln['c'] for k in range(j, i)):
+                continue
+            wf, ph = _wf_before(out, i, ln['c']), _phase_before(out, i, ln['c'])
+            if how == 'gooderror' and wf == 'good' and ph == 'disp' and ln['pr'] == 'ok' and ln['st'] < 400:
+                cands.append(i)
+            if how == 'unsup200' and wf == 'unsup' and ln['pr'] == 'ok' and ln['st'] >= 400:
+                cands.append(i)
+        if not cands:
+            return None
+        i = rnd.choice(cands)
+        c = out[i]['c']
+        if how == 'unsup200':
+            out[i]['st'] = 200
+            return out, 'C14.invalid_response', 'unsupported version answered 200 at line %d' % (i + 1)
+        # the request is refused instead of dispatched
+        j = max(k for k in range(i) if out[k]['k'] == 'req' and out[k]['c'] == c)
+        out[j] = line('rej', c, st=400)
+        out[i]['st'] = 400
+        return out, 'C14.error_for_wellformed', 'good request refused with 400 at line %d' % (i + 1)
     if how == 'partial':
         # a proper prefix of a message, delivered where a message starts, is answered
         cands = []
@@ -905,6 +970,27 @@ def _phase_before(lines, i, c):
     return ph
 
 
+def _want_before(lines, i, c):
+    ph, nresp, wf, want = 'none', 0, '', ''
+    for ln in lines[:i]:
+        if ln['c'] != c:
+            continue
+        k = ln['k']
+        if k == 'conn':
+            ph = 'idle'
+        elif k == 'in':
+            if ph == 'recv' and nresp == 0:
+                want = want if (ln['cls'] == 'Rest' and wf == 'partial' and ln['pr'] == want) else ''
+                wf = 'good' if (ln['cls'] == 'Rest' and wf == 'partial') else 'hostile'
+            else:
+                ph, nresp, wf, want = 'recv', 0, ln['wf'], ln['pr']
+        elif k in ('req', 'rej') and ph == 'recv':
+            ph = 'disp' if k == 'req' else 'rej'
+        elif k == 'resp':
+            nresp += 1
+    return want
+
+
 def _wf_before(lines, i, c):
     ph, nresp, wf = 'none', 0, ''
     for ln in lines[:i]:
@@ -981,7 +1067,7 @@ def run_replay(path):
 # ---------------------------------------------------------------------------
 
 ACTIONS = ('Connect', 'In', 'Late', 'InX', 'Disc', 'TDisc')
-VARIANTS = {frozenset(): 'intended', frozenset(['stalebuf']): 'stalebuf'}
+VARIANTS = {frozenset(): 'intended'}
 
 
 def run(tier, replay=None):
@@ -1006,6 +1092,8 @@ def run(tier, replay=None):
         'gen:keepbuf': lambda: tlc.run_tlc(SPEC, 'HttpConn', 'MC_HttpConn_keepbuf.cfg', workers=1),
         'gen:echo505': lambda: tlc.run_tlc(SPEC, 'HttpConn', 'MC_HttpConn_echo505.cfg', workers=1),
         'gen:stalebuf': lambda: tlc.run_tlc(SPEC, 'HttpConn', 'MC_HttpConn_stalebuf.cfg', workers=1),
+        'gen:stalepair': lambda: tlc.run_tlc(SPEC, 'HttpConn', 'MC_HttpConn_stalepair.cfg', workers=1),
+        'gen:crsplit': lambda: tlc.run_tlc(SPEC, 'HttpConn', 'MC_HttpConn_crsplit.cfg', workers=1),
         'hist:one': lambda: dump_histories('HIST_HttpConn_one%s.cfg' % suffix),
         'hist:two': lambda: dump_histories('HIST_HttpConn_two%s.cfg' % suffix),
     }
@@ -1024,7 +1112,9 @@ def run(tier, replay=None):
         if act not in cov or cov[act][1] == 0:
             raise tlc.MachineryError('vacuous model: action %s never taken (%s)' % (act, cov))
     expect = {'gen:keepbuf': ('C14.residue',), 'gen:echo505': ('C14.invalid_response', 'C14.close_mismatch'),
-              'gen:stalebuf': ('C14.two_responses',)}
+              'gen:stalebuf': ('C14.two_responses', 'C14.error_for_wellformed'),
+              'gen:stalepair': ('C14.wrong_request', 'C14.invalid_response'),
+              'gen:crsplit': ('C14.error_for_wellformed',)}
     gen_hists = []
     for k, clause in expect.items():
         g = results[k]
@@ -1073,7 +1163,7 @@ def run(tier, replay=None):
             origin.append('tlc-history')
     n_hist_scripts = len(scripts)
     for org, sc in scripts_every_mutant(rnd, quick) + scripts_truncations(rnd, quick) + scripts_late(rnd, quick) + \
-            scripts_tls_cuts(rnd, quick) + \
+            scripts_tls_cuts(rnd, quick) + scripts_after_head(rnd, quick) + \
             scripts_random(rnd, 250 if quick else 4000, fuzz=False) + scripts_random(rnd, 250 if quick else 4000, fuzz=True):
         scripts.append(sc)
         origin.append(org)
@@ -1165,6 +1255,9 @@ def run(tier, replay=None):
                 break
     if per_how.get('partial', 0) == 0:
         raise tlc.MachineryError('self-test produced no corrupted trace of kind "partial"')
+    for h in ('wrongreq', 'gooderror', 'unsup200'):
+        if per_how.get(h, 0) == 0:
+            raise tlc.MachineryError('self-test produced no corrupted trace of kind "%s"' % h)
     need = {'C14.residue', 'C14.two_responses', 'C14.invalid_response', 'C14.close_mismatch', 'C14.loop_dead',
             'C14.dispatch_after_reject'}
     if muts:
